@@ -41,6 +41,15 @@ def vectors(seed=1, n=40):
         v.append(dict(op="exp", a=D(d), want=D(w)))
         if d <= 0:
             v.append(dict(op="expm1n", a=D(-d), want=D(1 - d.exp())))
+    def _cos(x):
+        x = Decimal(x); sm = Decimal(0); t = Decimal(1); j = 0
+        while abs(t) > Decimal(10) ** -75:
+            sm += t; j += 1; t = -t * x * x / ((2 * j - 1) * (2 * j))
+        return sm
+    for x in ["0", "0.5", "1", "1.0471975511965977461542144610931676280657", "1.5707963267948966192313216916397514420985846996875529",
+              "2.0943951023931954923084289221863352561314", "3.14159265358979323846264338327950288", "0.001", "2.5",
+              "0.01745329251994329576923690768488612713", "-1.2"]:
+        v.append(dict(op="cos", a=D(x), want=D(_cos(x))))
     v.append(dict(op="close", a=D("1"), b=D("1.0000000001"), n=-9, want=D(1)))
     v.append(dict(op="close", a=D("1"), b=D("1.00000001"), n=-9, want=D(0)))
     v.append(dict(op="close", a=D("-3e10"), b=D("-3.0000000000001e10"), n=-12, want=D(1)))
